@@ -555,3 +555,193 @@ func ruleClaimOnEveryRetry(r *Run, p *Prog, rule string) {
 	}
 	r.Ob(rule, FnName(f)+"/claim-on-every-retry", tern(bad != "", bad, p.Pos(claim.Pos())), bad == "", true, tern(bad == "", "every loop of Set contains the fetch-add: each retry starts from a fresh position", "Set has a loop that does not pass through the fetch-add: a producer retries the position it already holds — once a newer bucket sits there it spins until the consumer removes it (with the wrapped writer blocked, Write never returns)"))
 }
+
+// ruleConsoleCallerPath: the default console formatter shows the caller either as it is in the
+// event or relative to the working directory as computed by filepath.Rel (path-element aware);
+// nothing else may cut or rewrite the path — a string-prefix trim cuts inside a path element
+// (/srv/app vs /srv/app-lib/x.go) and the console names a file that does not exist.
+func ruleConsoleCallerPath(r *Run, p *Prog, rule string) {
+	f := p.Func("", "consoleDefaultFormatCaller")
+	if !r.Anchor(f != nil, rule, "consoleDefaultFormatCaller") {
+		return
+	}
+	n := 0
+	for _, g := range f.AnonFuncs {
+		gv := p.View(g, "keep-colorize", func(h *ssa.Function) bool { return h.Name() == "colorize" })
+		if len(gv.Params) != 1 {
+			continue
+		}
+		in0 := gv.Params[0]
+		var bad []string
+		seen := map[ssa.Value]bool{}
+		var walk func(v ssa.Value, depth int)
+		isInput := func(v ssa.Value) bool {
+			// cc, ok := i.(string)
+			if ex, ok := v.(*ssa.Extract); ok && ex.Index == 0 {
+				if ta, ok := ex.Tuple.(*ssa.TypeAssert); ok && ta.X == ssa.Value(in0) {
+					return true
+				}
+			}
+			if ta, ok := v.(*ssa.TypeAssert); ok && ta.X == ssa.Value(in0) {
+				return true
+			}
+			return false
+		}
+		walk = func(v ssa.Value, depth int) {
+			if seen[v] || depth > 12 {
+				return
+			}
+			seen[v] = true
+			if isInput(v) {
+				return
+			}
+			switch x := v.(type) {
+			case *ssa.Const:
+				return
+			case *ssa.Phi:
+				for _, e := range x.Edges {
+					walk(e, depth+1)
+				}
+			case *ssa.BinOp:
+				if x.Op == token.ADD {
+					walk(x.X, depth+1)
+					walk(x.Y, depth+1)
+					return
+				}
+				bad = append(bad, descr(v))
+			case *ssa.MakeInterface:
+				walk(x.X, depth+1)
+			case *ssa.ChangeType:
+				walk(x.X, depth+1)
+			case *ssa.UnOp:
+				if al, ok := x.X.(*ssa.Alloc); ok && x.Op == token.MUL {
+					for _, ref := range referrersOf(al) {
+						if st, ok := ref.(*ssa.Store); ok && st.Addr == ssa.Value(al) {
+							walk(st.Val, depth+1)
+						}
+					}
+					return
+				}
+				bad = append(bad, descr(v))
+			case *ssa.Extract:
+				c, ok := x.Tuple.(*ssa.Call)
+				if ok && x.Index == 0 && isCallTo(&c.Call, "path/filepath.Rel") && len(c.Call.Args) == 2 {
+					walk(c.Call.Args[1], depth+1) // the target path is the caller text
+					return
+				}
+				bad = append(bad, descr(v))
+			case *ssa.Call:
+				if sc := staticCallee(&x.Call); sc != nil && sc.Name() == "colorize" && InModule(sc) && len(x.Call.Args) >= 1 {
+					walk(x.Call.Args[0], depth+1)
+					return
+				}
+				bad = append(bad, descr(v))
+			default:
+				bad = append(bad, descr(v))
+			}
+		}
+		eachInstr(gv, func(b *ssa.BasicBlock, i int, in ssa.Instruction) {
+			if ret, ok := in.(*ssa.Return); ok {
+				for _, res := range ret.Results {
+					walk(res, 0)
+				}
+			}
+		})
+		n++
+		ok := len(bad) == 0
+		r.Ob(rule, FnName(f)+"/caller-path-origin", p.Pos(g.Pos()), ok, true, tern(ok, "the caller text shown is the event's own text or filepath.Rel(cwd, text), decorated with constants", "the caller text shown by the console is derived through "+strings.Join(bad, ", ")+": anything but the event's text or filepath.Rel of it can name a file that is not the call site's (a string-prefix cut splits a path element)"))
+	}
+	if n == 0 {
+		r.Fail(rule, FnName(f)+"/caller-path-origin", p.Pos(f.Pos()), "the formatter closure of consoleDefaultFormatCaller was not found")
+	}
+}
+
+// globalInitString: the constant string a package-level variable is initialised with ("" if it is
+// not initialised from a constant).
+func globalInitString(g *ssa.Global) string {
+	if g == nil || g.Pkg == nil {
+		return ""
+	}
+	init := g.Pkg.Func("init")
+	if init == nil {
+		return ""
+	}
+	out := ""
+	eachInstr(init, func(b *ssa.BasicBlock, i int, in ssa.Instruction) {
+		if st, ok := in.(*ssa.Store); ok && st.Addr == ssa.Value(g) {
+			if s, ok := constString(st.Val); ok {
+				out = s
+			}
+		}
+	})
+	return out
+}
+
+// ruleDecodedTimestampLayout: the decoder renders an integer timestamp (whole seconds) and a float
+// timestamp (seconds with a fraction) with two different layouts, and the layout of the float arm
+// has a fractional-seconds element — otherwise the binary build's console/journald/decoded output
+// drops the sub-second part the JSON build shows.
+func ruleDecodedTimestampLayout(r *Run, p *Prog, rule string) {
+	f := p.Func(cborRel, "decodeTimeStamp")
+	if !r.Anchor(f != nil, rule, "cbor.decodeTimeStamp") {
+		return
+	}
+	f = p.View(f, "", nil)
+	paths, complete := enumPaths(f, 1, 4000)
+	if !complete {
+		r.Fail(rule, FnName(f)+"/layouts", p.Pos(f.Pos()), "cannot enumerate the paths of decodeTimeStamp (undecided, fail closed)")
+		return
+	}
+	nInt, nFrac, bad, badPos := 0, 0, "", ""
+	for _, pa := range paths {
+		if _, ok := pa.Exit.(*ssa.Return); !ok || pa.Infeasible() {
+			continue
+		}
+		var unix, format *ssa.Call
+		for _, in := range pa.Instrs() {
+			if c, ok := in.(*ssa.Call); ok {
+				if isCallTo(&c.Call, "time.Unix") {
+					unix = c
+				}
+				if isCallTo(&c.Call, "(time.Time).AppendFormat") || isCallTo(&c.Call, "(time.Time).Format") {
+					format = c
+				}
+			}
+		}
+		if unix == nil || format == nil {
+			if bad == "" {
+				bad, badPos = "a returning path does not build the time with time.Unix and render it with (Append)Format", p.Pos(pa.Exit.Pos())
+			}
+			continue
+		}
+		layoutArg := format.Call.Args[len(format.Call.Args)-1]
+		g := loadedGlobal(pa.Resolve(layoutArg))
+		layout := globalInitString(g)
+		if s, ok := constString(pa.Resolve(layoutArg)); ok {
+			layout = s
+		}
+		hasFrac := strings.Contains(layout, ".0") || strings.Contains(layout, ".9") || strings.Contains(layout, ",0") || strings.Contains(layout, ",9")
+		nsec, isC := constInt(pa.Resolve(unix.Call.Args[1]))
+		whole := isC && nsec == 0
+		switch {
+		case layout == "":
+			if bad == "" {
+				bad, badPos = "the layout "+descr(layoutArg)+" is not a constant-initialised package variable", p.Pos(format.Pos())
+			}
+		case whole:
+			nInt++
+		case !hasFrac:
+			if bad == "" {
+				bad, badPos = fmt.Sprintf("a timestamp with a fractional part (time.Unix(secs, nsec)) is rendered with the layout %q, which has no fractional-seconds element", layout), p.Pos(format.Pos())
+			}
+		default:
+			nFrac++
+		}
+	}
+	ok := bad == "" && nInt > 0 && nFrac > 0
+	pos := p.Pos(f.Pos())
+	if bad != "" {
+		pos = badPos
+	}
+	r.Ob(rule, FnName(f)+"/layouts", pos, ok, true, tern(ok, fmt.Sprintf("%d whole-second path(s); %d fractional path(s) rendered with a layout that has a fractional-seconds element", nInt, nFrac), tern(bad != "", bad+": the decoded text loses the sub-second part of the event's time", "the integer or the float arm of decodeTimeStamp was not found")))
+}
